@@ -102,6 +102,8 @@ static void gate_observer(void *vctx, int fn, int phase, void **a) {
             if (phase == 0) {
                 g->ks_in_hash = obs::hash_lwe(smp, nin);
                 g->ks_pred_ok = false;
+                if (g->gate >= 0 && ks == g->ck->bkFFT->ks && ks->n != nin)
+                    r.v.raise("keyswitch-identity", "C08.dimension", fmt("the key-switching key of the cloud key covers %d mask coefficients, the extracted sample it is applied to has %d: the phase cannot be preserved", ks->n, nin), g->op_index);
                 if (ks->n != nin || ks->t != kc->t || ks->basebit != kc->basebit) return;   // not the gate key
                 kc->compute_ks_noise();
                 const int t = kc->t, bb = kc->basebit, base = kc->base;
